@@ -95,8 +95,10 @@ class SimTerm:
         self.log = []
 
     # -- configuration ---------------------------------------------------------------
-    def reset(self, profile=None):
+    def reset(self, profile=None, zero_clock=False):
         self.drain_master()
+        if zero_clock:
+            self.now = 0.0  # identical float arithmetic in every run of the same operation
         self.profile = dict(profile or {})
         self.pending = []
         self._reqbuf = b""
